@@ -3,6 +3,7 @@ package eng
 // C13 - introspection reports exactly what was registered (engine e-pair).
 
 import (
+	"sync/atomic"
 	"context"
 	"encoding/json"
 	"fmt"
@@ -479,6 +480,122 @@ func runC13(r *fw.Run) {
 			r.Sample(h)
 		}
 	})
+	for k := 0; k < r.Pick(20, 300) && r.ViolationCount() <= 12; k++ {
+		r.Journal(0, map[string]interface{}{"what": "overlapping registrations", "k": k})
+		c13RacingRegistrations(r, k)
+		r.Done(0)
+	}
+}
+
+// c13RacingRegistrations: registrations whose VarlinkGetDescription (user code the library calls from RegisterInterface)
+// takes its time, so that two registrations of one name, or a registration and the start of serving, overlap. Whatever
+// the interleaving: a name is listed at most once, RegisterInterface returns nil for exactly the listed registrations, and
+// what a listening service reports does not change.
+func c13RacingRegistrations(r *fw.Run, k int) {
+	cse := map[string]interface{}{"what": "overlapping registrations", "k": k}
+	svc, err := varlink.NewService("Verif", "Racing", "1", "u")
+	if err != nil {
+		return
+	}
+	log := newEvLog(r)
+	// (a) two registrations of the same name meet inside VarlinkGetDescription (or pass each other after 20 ms)
+	var inside int32
+	meet := func() {
+		atomic.AddInt32(&inside, 1)
+		for dl := time.Now().Add(20 * time.Millisecond); atomic.LoadInt32(&inside) < 2 && time.Now().Before(dl); {
+			time.Sleep(50 * time.Microsecond)
+		}
+	}
+	name := fmt.Sprintf("org.example.twice%d", k)
+	errs := make([]error, 2)
+	var wg sync.WaitGroup
+	for i := 0; i < 2; i++ {
+		wg.Add(1)
+		go func(i int) {
+			defer wg.Done()
+			errs[i] = svc.RegisterInterface(&ScriptDisp{Name: name, Desc: defaultDesc(name) + fmt.Sprintf("# copy %d\n", i), Log: log, DescHook: meet})
+		}(i)
+	}
+	wg.Wait()
+	okN := 0
+	for _, e := range errs {
+		if e == nil {
+			okN++
+		}
+	}
+	// (b) a registration that is inside VarlinkGetDescription while serving starts
+	p := filepath.Join(r.WorkDir, fmt.Sprintf("rr%d", r.Seq()))
+	addr := "unix:" + p
+	late := fmt.Sprintf("org.example.late%d", k)
+	started := make(chan struct{})
+	lateErr := make(chan error, 1)
+	go func() {
+		lateErr <- svc.RegisterInterface(&ScriptDisp{Name: late, Desc: defaultDesc(late), Log: log, DescHook: func() {
+			close(started)
+			time.Sleep(time.Duration(5+k%4*10) * time.Millisecond)
+		}})
+	}()
+	select {
+	case <-started:
+	case <-time.After(5 * time.Second):
+	}
+	ctx, cancel := context.WithCancel(context.Background())
+	defer cancel()
+	done := make(chan error, 1)
+	go func() { done <- svc.Listen(ctx, addr, 0) }()
+	info := func() ([]string, error) {
+		var last error
+		for try := 0; try < 2000; try++ {
+			cctx, ccl := context.WithTimeout(context.Background(), 5*time.Second)
+			conn, err := varlink.NewConnection(cctx, addr)
+			if err == nil {
+				var names []string
+				err = conn.GetInfo(cctx, nil, nil, nil, nil, &names)
+				conn.Close()
+				ccl()
+				if err == nil {
+					return names, nil
+				}
+			} else {
+				ccl()
+			}
+			last = err
+			time.Sleep(500 * time.Microsecond)
+		}
+		return nil, last
+	}
+	first, err1 := info()
+	lerr := <-lateErr
+	second, err2 := info()
+	svc.Shutdown()
+	select {
+	case <-done:
+	case <-time.After(20 * time.Second):
+	}
+	if err1 != nil || err2 != nil {
+		r.Inconclusive("racing registrations: GetInfo failed: %v %v", err1, err2)
+		return
+	}
+	count := func(l []string, n string) int {
+		c := 0
+		for _, x := range l {
+			if x == n {
+				c++
+			}
+		}
+		return c
+	}
+	if c := count(second, name); c != 1 || okN != 1 {
+		r.Violation("C13 registration-not-refused", fmt.Sprintf("two overlapping RegisterInterface calls for %q returned %v and %v; GetInfo lists the name %d time(s) (%q) - exactly one must succeed and the name be listed once", name, errs[0], errs[1], c, second), cse)
+	}
+	if strings.Join(first, "\x00") != strings.Join(second, "\x00") {
+		r.Violation("C13 interface-list", fmt.Sprintf("what a listening service reports changed: GetInfo listed %q, then - after a RegisterInterface call that had begun before serving started returned %v - %q", first, lerr, second), cse)
+	}
+	if (lerr == nil) != (count(second, late) == 1) {
+		r.Violation("C13 registration-not-refused", fmt.Sprintf("RegisterInterface(%q), begun before serving started, returned %v, but GetInfo lists the name %d time(s)", late, lerr, count(second, late)), cse)
+	}
+	r.Count("racing_registration_runs", 1)
+	r.Case(fw.Hash("racing-reg", fmt.Sprint(k%4)), true)
 }
 
 func replayC13(r *fw.Run, raw json.RawMessage) {
@@ -494,7 +611,7 @@ func replayC13(r *fw.Run, raw json.RawMessage) {
 func init() {
 	fw.Register(&fw.Engine{
 		ID: "C13", Level: "exploration",
-		Rule: "a case = a history on one Service object: identity strings (empty, controls incl. NUL, <&>, U+2028, non-BMP, generated hostile strings) and a sequence of 3..12 (thorough 40) operations over {register(name, description text), start serving (Listen or Bind+DoListen; unix, abstract, TCP), shutdown + wait, serve again}; names collide on purpose (duplicates, org.varlink.service itself, near-misses), descriptions are arbitrary Unicode incl. empty, CRLF, backticks, 1 MiB. After every operation performed while serving, a real client observes and the result is compared with a 20-line model (names in registration order, descriptions, serving flag): RegisterInterface refused exactly when duplicate or serving and then leaves everything unchanged; Connection.GetInfo field for field (also with nil out-pointers); GetInterfaceDescription(n) byte for byte for every listed n and InvalidParameter(interface) for 7 near-misses of every name; Resolver.GetInfo / Resolve against a dispatcher registered as org.varlink.resolver that answers from the same model, Resolve(org.varlink.resolver) answered locally without a call. Register-while-serving is issued only after a completed round trip. distinct by hash of the history. A quarter of the serve periods run with a 60 ms idle timeout and end by ServiceTimeoutError once the harness closes its keep-alive connection; the out-variables passed to GetInfo hold stale values.",
+		Rule: "a case = a history on one Service object: identity strings (empty, controls incl. NUL, <&>, U+2028, non-BMP, generated hostile strings) and a sequence of 3..12 (thorough 40) operations over {register(name, description text), start serving (Listen or Bind+DoListen; unix, abstract, TCP), shutdown + wait, serve again}; names collide on purpose (duplicates, org.varlink.service itself, near-misses), descriptions are arbitrary Unicode incl. empty, CRLF, backticks, 1 MiB. After every operation performed while serving, a real client observes and the result is compared with a 20-line model (names in registration order, descriptions, serving flag): RegisterInterface refused exactly when duplicate or serving and then leaves everything unchanged; Connection.GetInfo field for field (also with nil out-pointers); GetInterfaceDescription(n) byte for byte for every listed n and InvalidParameter(interface) for 7 near-misses of every name; Resolver.GetInfo / Resolve against a dispatcher registered as org.varlink.resolver that answers from the same model, Resolve(org.varlink.resolver) answered locally without a call. Register-while-serving is issued only after a completed round trip. distinct by hash of the history. A quarter of the serve periods run with a 60 ms idle timeout and end by ServiceTimeoutError once the harness closes its keep-alive connection; the out-variables passed to GetInfo hold stale values. Registrations whose VarlinkGetDescription takes its time: two of one name meeting inside it, and one that is inside it while serving starts - a name is listed at most once, nil is returned for exactly the listed registrations, a listening service's GetInfo does not change.",
 		Assumptions: []string{"interface names are non-empty (an empty name cannot be described; outside the statement)", "identity strings and descriptions are valid UTF-8"},
 		Run:         runC13, Replay: replayC13, CrashIsViolation: true, MinEvals: 50,
 		QuickTimeout: 15 * time.Minute, ThoroughTimeout: 60 * time.Minute,
